@@ -38,7 +38,7 @@
    or writes out of bounds" is a statement about compiled code and is not a Coq theorem here: the theorems are
    named _partial. *)
 From Coq Require Import List Arith ZArith NArith Bool.
-From SharkV Require Import ListAux C03Model C03Proofs C19Model C19Proofs C19RoundTrip C19RoundTrip2 C19SvmRoundTrip C19Batches.
+From SharkV Require Import ListAux C03Model C03Proofs C19Model C19Proofs C19RoundTrip C19RoundTrip2 C19SvmRoundTrip C19Batches C19BigBatch C19BigBatchProofs.
 Import ListNotations.
 
 Theorem C19_csv_data_import_total_partial :
@@ -310,3 +310,104 @@ Example C19_libsvm_roundtrip_example :
 Proof. exact svm_examples. Qed.
 Example C19_partitions_differ : opt_sizes 7 3 = Some [3; 2; 2] /\ init_sizes 7 3 = [3; 3; 1].
 Proof. exact partitions_differ. Qed.
+
+(* ---- extreme batch sizes (C19BigBatch.v, C19BigBatchProofs.v) ---- *)
+(* saturation: for maximumBatchSize >= number of records (>= 1) the batch sizes do not depend on maximumBatchSize: one batch
+   holding everything.  This justifies running the unary model with min(maximumBatchSize, records + 1). *)
+Theorem C19_batches_saturate :
+  forall n m, 1 <= m -> n <= m -> opt_sizes n m = Some (if n =? 0 then [] else [n]).
+Proof. exact batches_saturate. Qed.
+Print Assumptions C19_batches_saturate.
+
+Theorem C19_libsvm_batches_saturate : forall n b, n <= b -> init_sizes n b = [n].
+Proof. exact init_sizes_saturate. Qed.
+Print Assumptions C19_libsvm_batches_saturate.
+
+(* the entry points the check executes (batch size a binary number, capped inside the model AFTER parsing at records + 1)
+   are the importers of C19Model.v at that batch size: every theorem above holds for them with m := N.to_nat m *)
+Theorem C19_import_64bit_batch_size_is_import :
+  (forall sep cm m s, csv_import_data_N sep cm m s = csv_import_data sep cm (N.to_nat m) s) /\
+  (forall first nout sep cm m s, csv_import_reg_N first nout sep cm m s = csv_import_reg first nout sep cm (N.to_nat m) s) /\
+  (forall first sep cm m s, csv_import_cls_N first sep cm m s = csv_import_cls first sep cm (N.to_nat m) s) /\
+  (forall (T : Type) (lexT : list byte -> option (T * list byte)) cm m s,
+     csv_import_scalar_N lexT cm m s = lift (read_scalars cm lexT s) (fun v => post_scalar v (N.to_nat m))) /\
+  (forall compressed hi b s, svm_import_cls_N compressed hi b s = svm_import_cls compressed hi (N.to_nat b) s) /\
+  (forall compressed hi b s, svm_import_reg_N compressed hi b s = svm_import_reg compressed hi (N.to_nat b) s) /\
+  (forall compressed hi b s, svm_import_cls_coded_N compressed hi b s = svm_import_cls_coded compressed hi (N.to_nat b) s) /\
+  (forall compressed hi b s, svm_import_reg_coded_N compressed hi b s = svm_import_reg_coded compressed hi (N.to_nat b) s).
+Proof. exact import_N_eq. Qed.
+Print Assumptions C19_import_64bit_batch_size_is_import.
+
+Theorem C19_csv_data_import_total_any_batch_size_partial :
+  forall sep cm (m : N) s, (1 <= m)%N ->
+  match csv_import_data_N sep cm m s with
+  | Ok d => exists rows, read_values cm sep s = Some rows /\ map snd (ds_elems d) = rows /\
+                         wf_batches (N.to_nat m) (ds_batches d) /\ wf_dense_dim d /\ opt_batched (N.to_nat m) (ds_batches d)
+  | Exc => True
+  | Fault => False
+  end.
+Proof. exact csv_import_total_N. Qed.
+Print Assumptions C19_csv_data_import_total_any_batch_size_partial.
+
+(* std::size_t arithmetic (W64 = 2^64; wadd/wsub/wmul wrap).  opt_sizes64 = detail::optimalBatchSizes AS CODED (n / m, then +1
+   if n - (n/m)*m > 0, ...): no operation wraps for any 64-bit arguments, the result is opt_sizes.  No-wrap side condition of
+   the round-up idiom (n + m - 1) / m: n + m <= 2^64; beyond it the quotient is 0 and the next line divides by zero. *)
+Theorem C19_optimalBatchSizes_size_t_correct :
+  forall n m : N, (1 <= m)%N -> (n < W64)%N ->
+  opt_sizes64 n m = option_map (map N.of_nat) (opt_sizes (N.to_nat n) (N.to_nat m)).
+Proof. exact opt_sizes64_correct. Qed.
+Print Assumptions C19_optimalBatchSizes_size_t_correct.
+
+Theorem C19_initializeBatches_size_t_correct :
+  forall n b : N, (n < W64)%N -> init_sizes64 n b = map N.of_nat (init_sizes (N.to_nat n) (N.to_nat b)).
+Proof. exact init_sizes64_correct. Qed.
+Print Assumptions C19_initializeBatches_size_t_correct.
+
+Theorem C19_roundup_idiom_ok_iff_no_wrap :
+  (forall n m : N, (1 <= m)%N -> (n + m <= W64)%N -> opt_sizes64_idiom n m = opt_sizes64 n m) /\
+  (forall n m : N, (1 <= n)%N -> (n < W64)%N -> (m < W64)%N -> (W64 < n + m)%N -> opt_sizes64_idiom n m = None).
+Proof. exact (conj opt_sizes64_idiom_ok opt_sizes64_idiom_faults). Qed.
+Print Assumptions C19_roundup_idiom_ok_iff_no_wrap.
+
+(* 2 records, maximumBatchSize = SIZE_MAX: the idiom divides by zero, the code returns one batch of 2 *)
+Theorem C19_roundup_idiom_refuted :
+  opt_sizes64_idiom 2 (W64 - 1) = None /\ opt_sizes64 2 (W64 - 1) = Some [2%N].
+Proof. exact idiom_refuted. Qed.
+Print Assumptions C19_roundup_idiom_refuted.
+
+Theorem C19_csv_import_batches_are_optimalBatchSizes_size_t :
+  forall sep cm (m : N) s, (1 <= m)%N ->
+  (forall d, csv_import_data_N sep cm m s = Ok d -> (N.of_nat (length (ds_elems d)) < W64)%N ->
+     opt_sizes64 (N.of_nat (length (ds_elems d))) m = Some (map N.of_nat (map (@length _) (ds_batches d)))) /\
+  (forall first nout d, csv_import_reg_N first nout sep cm m s = Ok d -> (N.of_nat (length (ds_elems d)) < W64)%N ->
+     opt_sizes64 (N.of_nat (length (ds_elems d))) m = Some (map N.of_nat (map (@length _) (ds_batches d)))) /\
+  (forall first d, csv_import_cls_N first sep cm m s = Ok d -> (N.of_nat (length (ds_elems d)) < W64)%N ->
+     opt_sizes64 (N.of_nat (length (ds_elems d))) m = Some (map N.of_nat (map (@length _) (ds_batches d)))) /\
+  (forall (T : Type) (lexT : list byte -> option (T * list byte)) d,
+     csv_import_scalar_N lexT cm m s = Ok d -> (N.of_nat (length (ds_elems d)) < W64)%N ->
+     opt_sizes64 (N.of_nat (length (ds_elems d))) m = Some (map N.of_nat (map (@length _) (ds_batches d)))).
+Proof. exact csv_import_batches_64. Qed.
+Print Assumptions C19_csv_import_batches_are_optimalBatchSizes_size_t.
+
+(* ---- the target object ---- *)
+(* the importers take the dataset by reference; the model passes it explicitly and no outcome looks at it *)
+Theorem C19_import_ignores_target :
+  (forall t t' sep cm m s, csv_import_data_into t sep cm m s = csv_import_data_into t' sep cm m s) /\
+  (forall t t' first nout sep cm m s, csv_import_reg_into t first nout sep cm m s = csv_import_reg_into t' first nout sep cm m s) /\
+  (forall t t' first sep cm m s, csv_import_cls_into t first sep cm m s = csv_import_cls_into t' first sep cm m s) /\
+  (forall t t' cm m s, csv_import_ints_into t cm m s = csv_import_ints_into t' cm m s) /\
+  (forall t t' cm m s, csv_import_uints_into t cm m s = csv_import_uints_into t' cm m s) /\
+  (forall t t' cm m s, csv_import_reals_into t cm m s = csv_import_reals_into t' cm m s) /\
+  (forall t t' compressed hi b s, svm_import_cls_into t compressed hi b s = svm_import_cls_into t' compressed hi b s) /\
+  (forall t t' compressed hi b s, svm_import_reg_into t compressed hi b s = svm_import_reg_into t' compressed hi b s).
+Proof. exact target_ignored. Qed.
+Print Assumptions C19_import_ignores_target.
+
+(* an "importer" whose early return on a record-free input keeps the target: one element reported for zero records *)
+Theorem C19_import_without_reset_refuted :
+  let target := mkDs [[(tt, 7%Z)]] 0 in
+  csv_import_scalar_noreset lex_int target 35%N 2%N [] = Ok target /\ ds_elems target <> [] /\
+  read_scalars 35%N lex_int [] = Some [] /\
+  csv_import_ints_into target 35%N 2%N [] = Ok (mkDs [] 0).
+Proof. exact noreset_refuted. Qed.
+Print Assumptions C19_import_without_reset_refuted.
